@@ -147,10 +147,21 @@ def rule_r4(facts, col):
     """Infinite never reports done; again() is true for Infinite"""
     variants = enum_variants(facts, "Repeater")
     for name, want in (("done", False), ("again", True)):
-        for body in facts.bodies:
-            if body.self_adt != REPEAT_ADT or body.name != name:
+        for body0 in facts.bodies:
+            if body0.self_adt != REPEAT_ADT or body0.name != name:
                 continue
-            key = "%s:Infinite" % body.q
+            key = "%s:Infinite" % body0.q
+            body = body0
+            # the decision may live in a method of the Repeater enum itself that done()/again() return the result of
+            has_sw = any(body.term(s_)["k"] == "switch" and switch_discr_expr(body, s_).k == "discr" for s_ in body.reachable(0))
+            if not has_sw:
+                for bb, t in body0.calls():
+                    for q in Body.callee_qs(t):
+                        for hb in facts.by_q.get(q, []):
+                            if hb.self_adt == "Repeater" and hb.kind != "closure":
+                                rets = [peel(e) for _, _, e in assigns_to_return(body0)]
+                                if rets and all(r.k == "call" and r.bb == bb for r in rets):
+                                    body = hb
             found = False
             for s in sorted(body.reachable(0)):
                 t = body.term(s)
